@@ -273,7 +273,10 @@ def load_known(prop_id: str) -> list[dict]:
     if not KNOWN.exists():
         return []
     data = json.loads(KNOWN.read_text())
-    return [e for e in data.get("known", []) if e.get("property") == prop_id]
+    # Findings of the model-E family name the predicate they violate in their signature ("prop"):
+    # the same defect is met by every check whose histories reach it, so those entries are
+    # matched (by signature) whatever property is being checked.
+    return [e for e in data.get("known", []) if e.get("property") == prop_id or "prop" in e.get("signature", {})]
 
 
 def matches_known(entry: dict, signature: dict) -> bool:
